@@ -277,7 +277,15 @@ def check_solve1d(case):
     if not all(np.all(np.isfinite(x)) for x in r0):
         sim.nonfinite_operator(case["num"])
     implicit = cases.is_implicit(case["integ"])
-    solver = cases.build_integrator(case["integ"], P.mesh, P.disc)
+    import flowdyn.integration as integ_mod
+    cls = getattr(integ_mod, case["integ"])
+    entered = []
+
+    class Rec(cls):          # records the state every step starts from: a run whose INTERMEDIATE states leave the admissible set is not judged
+        def step(self, f, dtloc):
+            entered.append(sim.admissible(P.smd, f.data))
+            return cls.step(self, f, dtloc)
+    solver = Rec(P.mesh, P.disc)
     vol = P.dxf
     I0 = _integrals(vol, P.field.data)
     A0 = _abs_integrals(vol, P.field.data)
@@ -291,6 +299,8 @@ def check_solve1d(case):
             raise Skip("left_admissible_set (implicit step from a state with negative pressure/density)")
         raise
     fin = res[-1]
+    if not all(entered) and sim.admissible(P.smd, fin.data):
+        raise Skip("left_admissible_set (an intermediate state had negative density/pressure/depth)")
     if not sim.admissible(P.smd, fin.data):
         if implicit or not (cases.num_is_first_order(case["num"]) or cases.num_is_limited(case["num"])):
             raise Skip("left_admissible_set")
